@@ -239,3 +239,40 @@ func ReplayMain(path string, hs map[string]func()) {
 // per-path undo log) and returns its result on every path. f must not
 // depend on symbolic values or make choices.
 func Setup(key string, f func() interface{}) interface{} { return f() }
+
+// Repeats is 1 under the engine (where map iteration order is a symbolic
+// schedule) and n natively (where Go's own random order has to be sampled to
+// reproduce an order-dependent counterexample).
+func Repeats(n int) int { return n }
+
+// CaptureStdout runs f and returns what it wrote to standard output.
+func CaptureStdout(f func()) string {
+	old := os.Stdout
+	r, w, err := os.Pipe()
+	if err != nil {
+		f()
+		return ""
+	}
+	os.Stdout = w
+	done := make(chan string)
+	go func() {
+		var sb strings.Builder
+		buf := make([]byte, 4096)
+		for {
+			n, err := r.Read(buf)
+			sb.Write(buf[:n])
+			if err != nil {
+				break
+			}
+		}
+		done <- sb.String()
+	}()
+	func() {
+		defer func() {
+			os.Stdout = old
+			w.Close()
+		}()
+		f()
+	}()
+	return <-done
+}
